@@ -195,8 +195,9 @@ class Parser:
         if self.isop('&'):
             self.eat()
             return self.pattern1()
-        if self.isid('mut'):
+        if self.isid('mut') or self.isid('ref'):
             self.eat()
+            p = self.peek()
         if self.isid('_'):
             self.eat()
             return ('pwild',)
@@ -605,8 +606,11 @@ class Parser:
             for r in rest[1:]:
                 e = ('bin', '||', e, r, self.line())
             parts.append(('cexpr', e))
-        if len(parts) == 1 and parts[0][0] == 'cexpr':
-            return parts[0][1]
+        if all(q[0] == 'cexpr' for q in parts):
+            e = parts[0][1]
+            for q in parts[1:]:
+                e = ('bin', '&&', e, q[1], self.line())
+            return e
         return ('chain', parts)
 
     def if_rest(self):
